@@ -145,6 +145,54 @@ Fixpoint find_P (cfg : config) (am : amap) : res amap :=
 End FindPrefix.
 Definition find_prefix (fs : fsys) (fuel : nat) (cfg : config) : res amap := find_P fs fuel cfg [].
 
+(* A fifth variant (another seeded regression had this shape): ParserState.associate returns at
+   once for a file that consists of ONE node which is already recorded for this platform NAME
+   ("walking it again cannot add anything") - but the node may be a directive (#define, #undef,
+   #include, #pragma once) whose effect on the fresh Platform of a later command is then lost.
+   Modelled where associate is called from find: the forced includes and the compiled file
+   (the same shortcut inside IncludeNode is not needed for the witness). *)
+Definition skip_assoc (fs : fsys) (n : pname) (am : amap) (f : path) : bool :=
+  match fs_get fs f with
+  | Some [(id, _)] => mem_triple (n, (f, id)) am
+  | _ => false
+  end.
+
+Section FindSkip.
+Variable fs : fsys.
+Variable fuel : nat.
+Fixpoint forced_K (n : pname) (am : amap) (this : path) (incs : list path) (p : plat) : res plat :=
+  match incs with
+  | [] => Ok p
+  | i :: r =>
+      let '(p1, res) := find_include fs (i, this, false) p in
+      match res with
+      | None => forced_K n am this r p1
+      | Some f =>
+          if mem_path f (once p1) || skip_assoc fs n am f then forced_K n am this r p1
+          else match run_file_M fs fuel f p1 with Ok p2 => forced_K n am this r p2 | Err e => Err e end
+      end
+  end.
+Definition run_entry_K (n : pname) (am : amap) (e : entry) : res plat :=
+  match forced_K n am (dirname (e_file e)) (e_incs e) (configure e new_platform) with
+  | Ok p1 => if skip_assoc fs n am (e_file e) then Ok p1 else run_file_M fs fuel (e_file e) p1
+  | Err x => Err x
+  end.
+Fixpoint entries_K (n : pname) (es : list entry) (am : amap) : res amap :=
+  match es with
+  | [] => Ok am
+  | e :: r => match run_entry_K n am e with
+              | Ok p' => entries_K n r (merge n (rev (assoc p')) am)
+              | Err x => Err x
+              end
+  end.
+Fixpoint find_K (cfg : config) (am : amap) : res amap :=
+  match cfg with
+  | [] => Ok am
+  | (n, es) :: r => match entries_K n es am with Ok am' => find_K r am' | Err x => Err x end
+  end.
+End FindSkip.
+Definition find_skipping_recorded (fs : fsys) (fuel : nat) (cfg : config) : res amap := find_K fs fuel cfg [].
+
 (* finder.find as written: WHERE the Platform is created is read from the source
    (Gen/C08_tables.v, regenerated by tools/gen/c08_tables.py on every run), so that
    hoisting it moves the model with the code - and breaks the theorems of Props/C08.v *)
